@@ -19,7 +19,7 @@ EXTENDS Naturals, Integers, Sequences, TLC, Json
 CONSTANTS Kinds,      \* subset of {"child", "nonchild", "never"}
           Exits,      \* exit instants: odd naturals; 0 = gone/zombie before the call; 9999 = never exits
           Timeouts,   \* 0, odd naturals, 9999 = None, 9998 = negative (invalid)
-          Statuses,   \* subset of {"exit0", "exit7", "sigkill", "sigterm", "sigrt35"}
+          Statuses,   \* subset of {"exit0", "exit7", "sigkill", "sigterm", "sigrt35", "sigsegvcore"}
           Cap,        \* 800
           MaxT        \* horizon: behaviours whose clock passes it are cut (state constraint)
 
@@ -44,7 +44,8 @@ HasTO == cfg.timeout # None
 Ended == cfg.kind = "never" \/ (cfg.exitAt # Never /\ cfg.exitAt <= now)
 
 \* (sigrt35: a real-time signal, which has no member in Python's signal enum)
-Code == [exit0 |-> 0, exit7 |-> 7, sigkill |-> -9, sigterm |-> -15, sigrt35 |-> -35]
+\* (sigsegvcore: killed by SIGSEGV with a core file written -- the status word carries the flag 0x80)
+Code == [exit0 |-> 0, exit7 |-> 7, sigkill |-> -9, sigterm |-> -15, sigrt35 |-> -35, sigsegvcore |-> -11]
 
 Init == /\ cfg \in [kind : Kinds, exitAt : Exits, timeout : Timeouts, status : Statuses]
         /\ (cfg.kind = "never" => cfg.exitAt = 0 /\ cfg.status = "exit0")
